@@ -9,6 +9,8 @@
 import PgProofs.KeyPath
 import PgProofs.KeyPathSet
 import PgProofs.Hier
+import PgProofs.Canon
+import PgProofs.Traverse
 namespace Pg.C10
 
 /-! ## 1. parse ∘ format -/
@@ -147,40 +149,26 @@ theorem C10_lt_irrefl (p : Path) : pathLt p p = false := pathLt_irrefl p
 
 theorem C10_lt_asymm (p q : Path) (h : pathLt p q = true) : pathLt q p = false := pathLt_asymm p q h
 
-/-- FULL statement: `<` is a strict total order on key paths over ints and strs … -/
-def C10_lt_order_Full : Prop :=
-  (∀ p q r : Path, pathLt p q = true → pathLt q r = true → pathLt p r = true) ∧
-  (∀ p q : Path, p ≠ q → pathLt p q = true ∨ pathLt q p = true)
+/-- `<` is a STRICT TOTAL ORDER on key paths over ints and strs — full statement, no exclusion
+(the model mirrors the tree with fix C10-F38: ints numerically, strs lexicographically, an int
+before a str; before the fix a mixed pair was compared by the `str()` forms and the statement
+was false: `[10] < ['1a'] < [2] < [10]`, and `[0]`, `['0']` unordered). -/
+theorem C10_lt_trans (p q r : Path) (h1 : pathLt p q = true) (h2 : pathLt q r = true) :
+    pathLt p r = true :=
+  pathLt_trans p q r h1 h2
 
-/-- … which is false on the code as it is (finding F38): an int and a str key are compared by
-their `str()` forms but two ints numerically, so `[10] < ['1a'] < [2]` while `[2] < [10]`. -/
-theorem C10_lt_order_counterexample : ¬ C10_lt_order_Full := by
-  intro h
-  have := h.1 [.i 10] [.s ['1', 'a']] [.i 2] (by decide) (by decide)
-  revert this
+theorem C10_lt_total (p q : Path) (hne : p ≠ q) : pathLt p q = true ∨ pathLt q p = true :=
+  pathLt_total p q hne
+
+/-- The wrapper's `==` is equality of keys (in particular `0` and `'0'` are different). -/
+theorem C10_key_eq (a b : Key) : keyEqW a b = true ↔ a = b := keyEqW_iff a b
+
+/-- The former counterexamples (finding F38) as regression instances. -/
+example : pathLt [.i 2] [.i 10] = true ∧ pathLt [.i 10] [.s ['1', 'a']] = true ∧
+    pathLt [.i 2] [.s ['1', 'a']] = true ∧ pathLt [.s ['1', 'a']] [.i 2] = false := by decide
+example : pathLt [.i 0] [.s ['0']] = true := by decide
+example : pathLt [.s ['a'], .i 2] [.s ['a'], .i 10] = true ∧ pathLt [.s ['a'], .i 1] [.s ['a'], .s ['b']] = true := by
   decide
-
-/-- Nor is it total: `KeyPath(0)` and `KeyPath('0')` are different paths, neither is smaller. -/
-theorem C10_lt_total_counterexample :
-    ¬ ∀ p q : Path, p ≠ q → pathLt p q = true ∨ pathLt q p = true := by
-  intro h
-  have := h [.i 0] [.s ['0']] (by decide)
-  revert this
-  decide
-
-/-- PARTIAL: on paths that agree in key *kind* position by position (`compat`: e.g. all the
-paths of one tree whose dicts have str keys and whose lists are indexed by ints) `<` is
-transitive and total, hence a strict total order. -/
-theorem C10_lt_trans_partial (p q r : Path) (c1 : compat p q = true) (c2 : compat q r = true)
-    (h1 : pathLt p q = true) (h2 : pathLt q r = true) : pathLt p r = true :=
-  pathLt_trans p q r c1 c2 h1 h2
-
-theorem C10_lt_total_partial (p q : Path) (c : compat p q = true) (hne : p ≠ q) :
-    pathLt p q = true ∨ pathLt q p = true :=
-  pathLt_total p q c hne
-
-example : compat [.s ['a'], .i 1, .s ['b']] [.s ['a'], .i 2] = true := by decide
-example : pathLt [.s ['a'], .i 2] [.s ['a'], .i 10] = true := by decide
 
 /-! ## 3. `KeyPathSet` behaves as a mathematical set
 
@@ -275,29 +263,78 @@ theorem C10_set_bool (t : Trie) (h : wf t = true) :
       rw [has_of_not_truthy h ht q] at hq
       cases hq
 
-/-- FULL statement of `add` without the `'$'` exclusion … -/
-def C10_set_add_Full : Prop :=
-  ∀ (t : Trie) (p : Path), wf t = true →
-    ∃ t', Trie.add false t p = .ok (t', !has t p) ∧ ∀ q, Trie.contains t' q = .ok (decide (q = p) || has t q)
+/-! ### All user paths, including the key `'$'` (fix C10-F19)
 
-/-- … is false (finding F19): adding the one-key path `'$'` to the empty set makes the *root* path
-a member — the key collides with the end marker. -/
-theorem C10_set_dollar_counterexample : ¬ C10_set_add_Full := by
-  intro h
-  obtain ⟨t', ha, hc⟩ := h Trie.empty [dollar] rfl
-  have h1 : Trie.add false Trie.empty [dollar] = .ok (.node [(dollar, .node [(dollar, .mark)])], true) := rfl
-  rw [h1] at ha
-  cases ha
-  have := hc []
-  revert this
+The public operations store a user path `p` as `escP p` (the user key `'$'` is replaced by a private
+object; see `escKey`), which never contains the marker key. So the refinement above applies to
+*every* path over str and int keys — no exclusion is left. `hasU t p := has t (escP p)` is
+membership of the user path `p`. -/
+
+theorem C10_set_user_paths_ok (p : Path) : dollarFree (escP p) = true := dollarFree_escP p
+
+theorem C10_set_add_all (t : Trie) (p : Path) (h : wf t = true) :
+    ∃ t', Trie.add false t (escP p) = .ok (t', !has t (escP p)) ∧ wf t' = true ∧
+      ∀ q, has t' (escP q) = (decide (q = p) || has t (escP q)) := by
+  obtain ⟨t', a, b, c⟩ := C10_set_add t (escP p) h (dollarFree_escP p)
+  exact ⟨t', a, b, fun q => by rw [c (escP q) (dollarFree_escP q), decide_escP_eq]⟩
+
+theorem C10_set_remove_all (t : Trie) (p : Path) (h : wf t = true) :
+    ∃ t', Trie.remove t (escP p) = .ok (t', has t (escP p)) ∧ wf t' = true ∧
+      ∀ q, has t' (escP q) = (!decide (q = p) && has t (escP q)) := by
+  obtain ⟨t', a, b, c⟩ := C10_set_remove t (escP p) h (dollarFree_escP p)
+  exact ⟨t', a, b, fun q => by rw [c (escP q) (dollarFree_escP q), decide_escP_eq]⟩
+
+theorem C10_set_contains_all (t : Trie) (p : Path) (h : wf t = true) :
+    Trie.contains t (escP p) = .ok (has t (escP p)) :=
+  C10_set_contains t (escP p) h (dollarFree_escP p)
+
+/-- iteration (un-escaped) yields exactly the member user paths. -/
+theorem C10_set_iter_all (t : Trie) (q : Path) (h : wf t = true) :
+    q ∈ (toList t).map unescP ↔ has t (escP q) = true := by
+  constructor
+  · intro hm
+    obtain ⟨r, hr, rfl⟩ := List.mem_map.mp hm
+    obtain ⟨hd, hh⟩ := (C10_set_iter t r h).mp hr
+    rw [escP_unescP r hd]; exact hh
+  · intro hh
+    have := (C10_set_iter t (escP q) h).mpr ⟨dollarFree_escP q, hh⟩
+    exact List.mem_map.mpr ⟨escP q, this, unescP_escP q⟩
+
+/-- `rebase` on user paths. -/
+theorem C10_set_rebase_all (t : Trie) (p q : Path) (h : wf t = true) :
+    wf (rebase t (escP p)) = true ∧
+    has (rebase t (escP p)) (escP q) = (match dropPrefix q p with
+      | some r => has t (escP r)
+      | none => false) := by
+  obtain ⟨a, b⟩ := C10_set_rebase t (escP p) h (dollarFree_escP p)
+  refine ⟨a, ?_⟩
+  rw [b]
+  have key : ∀ (p q : Path), (match dropPrefix (escP q) (escP p) with
+      | some r => has t r
+      | none => false) = (match dropPrefix q p with
+      | some r => has t (escP r)
+      | none => false) := by
+    intro p
+    induction p with
+    | nil => intro q; cases q <;> simp [escP, dropPrefix]
+    | cons x p ih =>
+      intro q
+      cases q with
+      | nil => simp [escP, dropPrefix]
+      | cons y q =>
+        simp only [escP, List.map_cons, dropPrefix]
+        by_cases hxy : y = x
+        · subst hxy; simpa [escP] using ih q
+        · have : ¬ escKey y = escKey x := fun e => hxy (escKey_injective y x e)
+          simp [hxy, this]
+  exact key p q
+
+/-- F19 regression instances: the one-key path `'$'` is an ordinary member; the root path is not
+affected, and adding `'$'` to a set holding the root path works. -/
+example : (Trie.add false Trie.empty (escP [dollar])).map (fun r => (toList r.1).map unescP) = .ok [[dollar]] := by
   decide
-
-/-- F19, second face: on a set that contains the root path, adding `'$'` raises AssertionError;
-and iterating `{ '$' }` yields the root path. -/
-theorem C10_set_dollar_assertion :
-    (Trie.add false (.node [(dollar, .mark)]) [dollar]).map (fun _ => ()) = .error .assertion ∧
-    toList (.node [(dollar, .node [(dollar, .mark)])]) = [[]] := by
-  constructor <;> rfl
+example : (Trie.add false (.node [(dollar, .mark)]) (escP [dollar])).map (fun r => (toList r.1).map unescP) =
+    .ok [[], [dollar]] := by decide
 
 /-! Non-vacuity: a well-formed trie with several members, `'$'`-free paths. -/
 example : wf (.node [(.s ['a'], .node [(dollar, .mark), (.i 0, .node [(dollar, .mark)])]), (dollar, .mark)]) = true := by
@@ -334,9 +371,7 @@ theorem C10_flatten_spec (fck : Bool) (v : Val) (h : isLeafLike v = false) :
       (fun acc pv => Assoc.set acc (.s (pathStrPc (!fck) pv.1)) pv.2) []) :=
   flatten_spec fck v h
 
-/-! Non-vacuity and instances (the inverse law `canonicalize (flatten v) = v` is *not* proved in
-general — see the report; these are evaluated instances of the model, the law itself is checked on
-the real code by the oracle on every generated canonical value). -/
+/-! Non-vacuity and instances. -/
 example : nodupVal (.dict [(.s ['a'], .list [.leaf (.int 1), .dict [(.i 5, .leaf .none)]]), (.s ['0'], .leaf (.str ['x']))]) = true := by
   decide
 example :
@@ -346,5 +381,89 @@ example :
      | .error _ => false) = true := by
   decide
 example : query (.dict [(.i 5, .leaf (.str ['x']))]) [.i 5] = .ok (.leaf (.str ['x'])) := rfl
+
+/-- EACH NODE ONCE: the walk reports pairwise distinct paths (with `C10_traverse_lookup` and
+`C10_traverse_complete`: the visit log is a bijection between visits and nodes). -/
+theorem C10_traverse_nodup (v : Val) (hn : nodupVal v = true) :
+    ((visitsPre v []).map (·.1)).Nodup := (walkOK v hn []).1
+
+/-! ## 5. flatten / canonicalize
+
+`canonical fck v` (decidable, `PgProofs/Canon.lean`) spells out what the flat form can express:
+dict keys are distinct; str keys are non-empty and, with the default `flatten_complex_keys=True`
+(`fck = true`, keys printed without brackets) free of `. [ ]`, with `flatten_complex_keys=False`
+bracket-balanced; a dict is not a list in disguise (`isListifiable`: all keys ints forming exactly
+`0..n-1`); recursively. Leaves, empty dicts and empty lists are canonical at any position. -/
+
+/-- INVERSE LAW, both modes: for every canonical value, canonicalizing its flattened form gives
+the value back (same nesting, same key types, same dict order). -/
+theorem C10_flatten_canon {dc : DigitClass} (h : DigitLaws dc) (fck : Bool) (v : Val)
+    (hc : canonical fck v = true) : canonicalize dc (flatten fck v) = .ok v :=
+  canonicalize_flatten h fck v hc
+
+/-- The full statement (only distinct dict keys assumed) … -/
+def C10_flatten_canon_Full : Prop :=
+  ∀ v : Val, nodupVal v = true → canonicalize asciiClass (flatten true v) = .ok v
+
+/-- … is false: an int-keyed dict `{0: 'x'}` flattens to `{'[0]': 'x'}`, which canonicalizes to the
+*list* `['x']` — the flat form cannot tell them apart (`isListifiable`). -/
+theorem C10_flatten_canon_counterexample : ¬ C10_flatten_canon_Full := by
+  intro h
+  have h1 := h (.dict [(.i 0, .leaf (.str ['x']))]) rfl
+  have h2 : canonicalize asciiClass (flatten true (.dict [(.i 0, .leaf (.str ['x']))])) =
+      .ok (.list [.leaf (.str ['x'])]) := rfl
+  rw [h2] at h1
+  injection h1 with h1
+  cases h1
+
+/-! Each remaining clause of `canonical` is needed (evaluated on the model; the same inputs are in
+the harness corpus and agree with the real code): a key with `.` under the default mode is split; an
+empty key raises KeyError; an unbalanced key under `flatten_complex_keys=False` raises ValueError;
+under that mode a balanced key with `.` is fine. -/
+example : canonicalize asciiClass (flatten true (.dict [(.s ['a', '.', 'b'], .leaf (.int 1))])) =
+    .ok (.dict [(.s ['a'], .dict [(.s ['b'], .leaf (.int 1))])]) := rfl
+example : canonicalize asciiClass (flatten true (.dict [(.s [], .leaf (.int 1))])) = .error .key := rfl
+example : canonicalize asciiClass (flatten false (.dict [(.s ['['], .leaf (.int 1))])) = .error .value := rfl
+example : canonical false (.dict [(.s ['a', '.', 'b'], .list [.leaf (.int 1), .dict []])]) = true := by decide
+example : canonical true (.dict [(.s ['a'], .list [.leaf (.int 1), .dict [(.i 5, .leaf .none), (.s ['0'], .list [])]])]) = true := by
+  decide
+
+/-- Converse on the image of `flatten`: a flat dict produced by `flatten` from a canonical value is
+reproduced by `flatten ∘ canonicalize`. -/
+theorem C10_canon_flatten_image {dc : DigitClass} (h : DigitLaws dc) (fck : Bool) (v : Val)
+    (hc : canonical fck v = true) :
+    ∃ w, canonicalize dc (flatten fck v) = .ok w ∧ flatten fck w = flatten fck v :=
+  ⟨v, canonicalize_flatten h fck v hc, rfl⟩
+
+/-- The converse does *not* hold as equality of ordered dicts for arbitrary flat dicts: entries of one
+sub-tree that are not adjacent come back grouped (`{'a.x':1, 'b':2, 'a.y':3}` ↦ `{'a.x':1, 'a.y':3,
+'b':2}`; equal as Python dicts, which ignore order — that weaker converse is not proved). -/
+theorem C10_canon_flatten_order_counterexample :
+    ∃ d w, canonicalize asciiClass d = .ok w ∧ (flatten true w == d) = false :=
+  ⟨.dict [(.s ['a', '.', 'x'], .leaf (.int 1)), (.s ['b'], .leaf (.int 2)), (.s ['a', '.', 'y'], .leaf (.int 3))],
+   .dict [(.s ['a'], .dict [(.s ['x'], .leaf (.int 1)), (.s ['y'], .leaf (.int 3))]), (.s ['b'], .leaf (.int 2))],
+   rfl, rfl⟩
+
+/-! ## 6. More of `KeyPathSet`: `==`, `has_prefix`, `subtree` -/
+
+/-- `s1 == s2` iff the two sets have the same members. -/
+theorem C10_set_eq (a b : Trie) (ha : wf a = true) (hb : wf b = true) :
+    Trie.beq a b = true ↔ ∀ q, dollarFree q = true → has a q = has b q :=
+  beq_iff a b ha hb
+
+/-- `has_prefix(p)` never raises and says whether some member extends `p` (for the root prefix on
+the empty set the code answers True: excluded by the last hypothesis). -/
+theorem C10_set_has_prefix (t : Trie) (p : Path) (h : wf t = true) (hp : dollarFree p = true)
+    (hne : t.nonEmpty = true ∨ p ≠ []) :
+    ∃ b, hasPrefix t p = .ok b ∧ (b = true ↔ ∃ r, dollarFree r = true ∧ has t (p ++ r) = true) :=
+  hasPrefix_spec p t h hp hne
+
+/-- `subtree(p)`: `None` iff no member extends `p`; otherwise the set of the remainders. -/
+theorem C10_set_subtree (t : Trie) (p : Path) (h : wf t = true) (hp : dollarFree p = true) :
+    ∃ o, subtree t p = .ok o ∧
+      (match o with
+       | some t' => wf t' = true ∧ ∀ q, has t' q = has t (p ++ q)
+       | none => ∀ q, has t (p ++ q) = false) :=
+  subtree_spec p t h hp
 
 end Pg.C10
